@@ -2055,7 +2055,9 @@ impl Zeroconf {
         // address records from being attributed to the new interface.
         if let Some(my_intf) = self.my_intfs.get(&if_index) {
             for ty in self.service_queriers.keys() {
-                self.send_query_on_intf(ty, RRType::PTR, my_intf);
+                if !self.cache_only_types.contains(ty) {
+                    self.send_query_on_intf(ty, RRType::PTR, my_intf);
+                }
             }
         }
 
@@ -2650,7 +2652,8 @@ impl Zeroconf {
                             Ok(()) => debug!("sent service resolved: {}", ptr.alias()),
                             Err(e) => debug!("failed to send service resolved: {}", e),
                         }
-                    } else {
+                    } else if !self.cache_only_types.contains(ty_domain) {
+                        // (a cache-only browse does not ask for the rest)
                         unresolved.insert(ptr.alias().to_string());
                     }
                 }
@@ -3185,7 +3188,9 @@ impl Zeroconf {
                             .or_insert_with(HashSet::new)
                             .insert(instance.to_string());
                     }
-                    unresolved.insert(instance.to_string());
+                    if !self.cache_only_types.contains(ty_domain) {
+                        unresolved.insert(instance.to_string());
+                    }
                 }
             }
         }
